@@ -7,10 +7,12 @@ CONSTANTS
   DirMissing = TRUE
   AnySplit = TRUE
   KeepHist = FALSE
+  Reusers = {}
+  MaxRounds = 1
+  MinBody = 0
 INVARIANT DestOldOrNew
 INVARIANT FailedIsClean
 INVARIANT DoneIsNew
 INVARIANT TempsDisjoint
 PROPERTY Termination
-PROPERTY Settled
 CHECK_DEADLOCK FALSE
